@@ -18,9 +18,18 @@ trailing NULs appearing / disappearing, one byte behind a long common prefix (po
 8, 16, 32, 64 and the last byte), the identical value again; at every storage state (inline,
 separately allocated, shrunk inline, shrunk inside a larger separate buffer, separate again
 after an empty value).
+A small block (kind big-*) covers size thresholds far from the inline limit: values of 4095 / 4096 /
+4097 / 8192 / 65535 / 65536 / 65537 bytes and 1 MiB, large -> small -> large, the shrink by 1 /
+4095 / 4096 / 4097 / half / all-but-one bytes taken from a slice of the node's own buffer (offset
+0 / k / ending at the last byte / ending at the terminator) or from outside.  Byte strings longer
+than 256 bytes are printed as length + FNV-1a hash + first/last 16 bytes by both drivers and by
+the oracle; above 256 KiB the model side prints a wildcard for the equality / copy /
+serialisation tokens (the oracle still checks them on the implementation).
 
 Direct oracle: a Python byte-string model of the property text, independent of the Coq model:
 contents = bytes of the last setter that returned 1 (or of the creation)."""
+import random
+
 import fw
 
 PROP = "C11"
@@ -35,7 +44,8 @@ RULE = ("small-scope block first (kind small-scope, both tiers, no randomness): 
         "length, storage class, contents) used only to aim lengths and own-buffer sources at the setter's case-split boundaries; a case is non-trivial when "
         "the storage class changed at least once or a setter failed; distinct = distinct script among those")
 TRUSTED = ["Coq 8.16.1 kernel (coqc), no axioms (Print Assumptions: closed under the global context)",
-           "extraction (ExtrOcamlBasic only) + ocaml/mdrv glue (ocaml/drv_str.ml)",
+           "extraction (ExtrOcamlBasic only) + ocaml/mdrv glue (ocaml/drv_str.ml; it restarts itself once under ulimit -s unlimited: "
+           "the extracted list functions are not tail recursive)",
            "harness/drv_str.c, xalloc.c, gcc -fsanitize=address,undefined",
            "LP64 layout constants of the model (header 48 bytes, pointer 8 bytes; the driver refuses another ABI)"]
 ASSUMPTIONS = ["a setter's source is either memory outside the node or a range inside the node's current contents and their "
@@ -54,8 +64,33 @@ def hexs(b):
     return b.hex() if b else "-"
 
 
+_PAT = {}
+
+
+def pat(k, n):
+    """the generated value "@<k>x<n>" of the drivers: b(i) = (7 i + 13 k + 5 (i / 256)) mod 251"""
+    if (k, n) not in _PAT:
+        if len(_PAT) > 64:
+            _PAT.clear()
+        _PAT[(k, n)] = bytes([(7 * i + 13 * k + 5 * (i >> 8)) % 251 for i in range(n)])
+    return _PAT[(k, n)]
+
+
 def unhex(h):
+    if h.startswith("@"):
+        k, n = h[1:].split("x")
+        return pat(int(k), int(n))
     return b"" if h == "-" else bytes.fromhex(h)
+
+
+def show(b):
+    """how the drivers print a byte string: hex, or #<len>:<fnv1a-32>:<first 16>:<last 16> above 256 bytes"""
+    if len(b) <= 256:
+        return hexs(b)
+    h = 0x811c9dc5
+    for c in b:
+        h = ((h ^ c) * 16777619) & 0xffffffff
+    return "#%d:%08x:%s:%s" % (len(b), h, b[:16].hex(), b[-16:].hex())
 
 
 def rbytes(rng, n, nonul=False):
@@ -314,9 +349,82 @@ def gen_small_scope(tier):
     return out
 
 
+# ---------------------------------------------------------------- size thresholds far from the inline limit
+# Values of 4095 / 4096 / 4097 / 8192 / 65535 / 65536 / 65537 bytes and 1 MiB (generated pattern
+# "@<k>x<n>", printed as hash + first/last 16 bytes), large -> small -> large: the large value is
+# shrunk by 1 / 4095 / 4096 / 4097 / half / all-but-one bytes either from a slice of the node's
+# own buffer (offset 0 / small k / ending at the last byte / ending at the terminator) or from an
+# outside source, then set to a large value again and (sometimes) shrunk once more.
+BIG_SMALL = [4095, 4096, 4097, 8192]
+BIG_MID = [65535, 65536, 65537]
+BIG_HUGE = 1 << 20
+
+
+def big_case(rng, N, dname, alias, offkind, state):
+    d = {"1": 1, "4095": 4095, "4096": 4096, "4097": 4097, "half": N // 2, "allbut1": N - 1}[dname]
+    if d > N:
+        return None
+    newlen = N - d
+    k1, k2, k3 = rng.randrange(200), rng.randrange(200), rng.randrange(200)
+    steps = []
+    if state == "inline":
+        create = "L@%dx%d,%d" % (k1, N, N)
+    else:
+        m = rng.choice([0, 3, 9])
+        create = "L%s,%d" % (hexs(rbytes(rng, m)), m)
+        steps.append("l@%dx%d,%d" % (k1, N, N))
+    if alias:
+        off = {"0": 0, "k": rng.choice([1, 7]), "end": N - newlen, "nul": N + 1 - newlen}[offkind]
+        off = max(0, min(off, N, N + 1 - newlen))
+        steps.append("o%d,%d" % (off, newlen))
+    else:
+        steps.append("l@%dx%d,%d" % (k2, newlen, newlen))
+    if rng.random() < 0.3:
+        steps.append("g")
+    N2 = N if N >= BIG_HUGE else rng.choice([N, N + 1, N - 1, rng.choice(BIG_SMALL)])
+    steps.append("l@%dx%d,%d" % (k3, N2, N2))
+    if N2 < BIG_HUGE and N2 >= 4096 and rng.random() < 0.5:
+        steps.append("o%d,%d" % (rng.choice([0, 1, 4096]), N2 - 4096))
+    return ("str %d %s %s" % (1 if rng.random() < 0.25 else 0, create, ";".join(steps)),
+            {"kind": "big-%s" % ("alias" if alias else "ext")})
+
+
+def gen_big(rng, tier):
+    out = []
+    dnames = ["1", "4095", "4096", "4097", "half", "allbut1"]
+    offk = ["0", "k", "end", "nul"]
+
+    def add(N, dname, alias, ok, state):
+        c = big_case(rng, N, dname, alias, ok, state)
+        if c:
+            out.append(c)
+    if tier == "quick":
+        i = rng.randrange(4)
+        for N in BIG_SMALL:
+            for dname in dnames:
+                i += 1
+                add(N, dname, i % 5 != 0, offk[i % 4], "inline" if i % 7 == 0 else "separate")
+        for j, dname in enumerate(["4096", "half", "1", "4097", "allbut1", "4095"]):
+            add(BIG_MID[(i + j) % 3], dname, j != 2, offk[(i + j) % 4], "separate")
+        add(BIG_HUGE, rng.choice(["4096", "4097", "half"]), True, offk[i % 4], "separate")
+    else:
+        for N in BIG_SMALL + BIG_MID:
+            for dname in dnames:
+                for ok in offk:
+                    add(N, dname, True, ok, "separate")
+                add(N, dname, True, rng.choice(offk), "inline")
+                add(N, dname, False, "0", rng.choice(["separate", "inline"]))
+        for dname in dnames:
+            add(BIG_HUGE, dname, True, rng.choice(offk), "separate")
+        add(BIG_HUGE, "4096", False, "0", "separate")
+        add(BIG_HUGE, "half", True, "k", "inline")
+    return out
+
+
 def gen(rng, tier):
     n = 3000 if tier == "quick" else 60000
     out = gen_small_scope(tier)
+    out += gen_big(random.Random(rng.random()), tier)     # own PRNG: the ordinary stream keeps its per-seed shape
     for ci in range(n):
         if rng.random() < 0.2:
             out.append(gen_near(rng))
@@ -424,20 +532,28 @@ def gen(rng, tier):
 
 
 # ---------------------------------------------------------------- the property, in Python
+def _esc_table(noslash):
+    two = {8: b"\\b", 10: b"\\n", 13: b"\\r", 9: b"\\t", 12: b"\\f", 0x22: b'\\"', 0x5c: b"\\\\"}
+    t = []
+    for c in range(256):
+        if c in two:
+            t.append(two[c])
+        elif c == 0x2f:
+            t.append(b"/" if noslash else b"\\/")
+        elif c < 0x20:
+            t.append(b"\\u00" + b"0123456789abcdef"[c >> 4:(c >> 4) + 1] + b"0123456789abcdef"[c & 15:(c & 15) + 1])
+        else:
+            t.append(bytes([c]))
+    return t
+
+
+_ESC = {False: _esc_table(False), True: _esc_table(True)}
+
+
 def json_escape(b, noslash):
     """json_escape_str of json_object.c, transcribed: which bytes are appended for each input byte"""
-    two = {8: b"\\b", 10: b"\\n", 13: b"\\r", 9: b"\\t", 12: b"\\f", 0x22: b'\\"', 0x5c: b"\\\\"}
-    out = bytearray()
-    for c in b:
-        if c in two:
-            out += two[c]
-        elif c == 0x2f:
-            out += b"/" if noslash else b"\\/"
-        elif c < 0x20:
-            out += b"\\u00" + b"0123456789abcdef"[c >> 4:(c >> 4) + 1] + b"0123456789abcdef"[c & 15:(c & 15) + 1]
-        else:
-            out.append(c)
-    return bytes(out)
+    t = _ESC[bool(noslash)]
+    return b"".join([t[c] for c in b])
 
 
 def parse_arg(a):
@@ -483,7 +599,7 @@ def parse_step(s):
     if len(t) != 9 or not t[6].startswith("E") or not t[7].startswith("C") or not t[8].startswith("J"):
         return None
     try:
-        return dict(ret=t[0], len=int(t[1]), data=unhex(t[2]), nul=t[3], sto=t[4], dlive=int(t[5]),
+        return dict(ret=t[0], len=int(t[1]), data=t[2], nul=t[3], sto=t[4], dlive=int(t[5]),
                     eq=t[6][1:], copy=t[7][1:], ser=t[8][1:])
     except ValueError:
         return None
@@ -493,19 +609,20 @@ def check_view(st, want, ns, where):
     """every observable of one step against the byte string the node must hold"""
     if st["len"] != len(want):
         return ("length", "reported length %d, %d bytes were set (%s)" % (st["len"], len(want), where))
-    if st["data"] != want:
-        return ("contents", "bytes read differ from the last bytes set (%s): got %s want %s" % (where, st["data"].hex()[:80], want.hex()[:80]))
+    wtok = show(want)
+    if st["data"] != wtok:
+        return ("contents", "bytes read differ from the last bytes set (%s): got %s want %s" % (where, st["data"][:80], wtok[:80]))
     if st["nul"] != "1":
         return ("nul", "no terminating NUL after the contents (%s)" % where)
     e = st["eq"]
     wante = "1" + ("0" if want else "-") + ("0" if 0 in want else "-") + "0"
     if e != wante:
         return ("equal", "json_object_equal does not use exactly the length-counted bytes (%s): got E%s want E%s" % (where, e, wante))
-    if st["copy"] != hexs(want):
-        return ("copy", "deep copy holds %s, original %s (%s)" % (st["copy"][:80], want.hex()[:80], where))
-    wj = b'"' + json_escape(want, ns) + b'"'
-    if st["ser"] != wj.hex():
-        return ("serialise", "serialisation does not use all bytes (%s): got %s want %s" % (where, st["ser"][:100], wj.hex()[:100]))
+    if st["copy"] != wtok:
+        return ("copy", "deep copy holds %s, original %s (%s)" % (st["copy"][:80], wtok[:80], where))
+    wj = show(b'"' + json_escape(want, ns) + b'"')
+    if st["ser"] != wj:
+        return ("serialise", "serialisation does not use all bytes (%s): got %s want %s" % (where, st["ser"][:100], wj[:100]))
     return None
 
 
